@@ -154,6 +154,8 @@ def run_full_case(a):
         if fam == "ref":
             return lib.ref_pt(cfg, Pm)
         if Pm is None:
+            if infrep == "Zfq":  # z == 0 carried by FQ objects (extension fields)
+                return (cfg.lib(F.one), cfg.lib(F.one), cfg.lib_fq(F.zero))
             t = {"Z": (F.one, F.one, F.zero), "010": (F.zero, F.one, F.zero),
                  "000": (F.zero, F.zero, F.zero)}[infrep or "Z"]
             return tuple(cfg.lib(c) for c in t)
@@ -282,7 +284,12 @@ def task_full_pairs(a, env):
                 _cmp(r, "C07:%s:%s:multiply:fq-coefficients" % (modname, group), args, exp, got)
         if fam == "opt":
             # infinity representatives at full size
-            for inf in ("Z", "010", "000"):
+            for inf in ("Z", "010", "000") + (("Zfq",) if group != "E1" else ()):
+                for op in ("is_on_curve", "is_inf", "double", "neg"):
+                    args = {"curve": curve, "group": group, "fam": fam, "op": op, "P": None, "infP": inf}
+                    exp, got = run_full_case(args)
+                    r.ev += 1
+                    _cmp(r, "C07:%s:%s:%s:inf:%s" % (modname, group, op, inf), args, exp, got)
                 for (lq, Qm) in dom[:4]:
                     for op in ("add", "eq"):
                         for swap in (False, True):
